@@ -1,5 +1,6 @@
 //! C11 — the convex hull view is the true hull and never serves stale data.
 
+use delaunay::core::triangulation::TopologyGuarantee;
 use delaunay::geometry::algorithms::convex_hull::{ConvexHull, ConvexHullConstructionError, ConvexHullValidationError};
 use delaunay::geometry::kernel::{FastKernel, Kernel, RobustKernel};
 use delaunay::geometry::point::Point;
@@ -327,7 +328,50 @@ fn check_state<K: Kernel<D, Scalar = f64>, const D: usize>(rep: &Report, cn: &Cn
     }
 }
 
+/// Two changes between hull creation and query on tiny triangulations, each run on a freshly *constructed* object so
+/// that the generation counter has its natural value (removing a vertex of the last simplex and inserting again
+/// rebuilds the TDS, whose counter starts over): remove every vertex, then insert every alphabet point; the hull is
+/// created after 0, 1 or 2 insert-and-remove cycles of a dummy vertex, which moves the counter at creation.
+fn two_changes<K: Kernel<D, Scalar = f64>, const D: usize>(rep: &Report, cn: &Cn, kname: &str, family: &str, pts: &[[f64; D]], alphabet: &[[f64; D]]) {
+    let Some(probe) = vcore::corpus::build::<K, D>(pts, TopologyGuarantee::PLManifold) else { return };
+    let nv = probe.number_of_vertices();
+    for bumps in 0..3u32 {
+        for v in 0..nv {
+            for p in 0..alphabet.len() {
+                let Some(mut dt) = vcore::corpus::build::<K, D>(pts, TopologyGuarantee::PLManifold) else { return };
+                for b in 0..bumps {
+                    let c: [f64; D] = std::array::from_fn(|i| 0.3 + 0.05 * i as f64);
+                    if let Outcome::Ok { .. } = model::apply(&mut dt, &Op::K1Insert { cell: 0, c: c.to_vec(), uid: 700 + b }, alphabet) {
+                        let idx = dt.vertices().position(|(_, x)| x.point().coords() == &c);
+                        if let Some(idx) = idx {
+                            let _ = model::apply(&mut dt, &Op::K1Remove { v: idx }, alphabet);
+                        }
+                    }
+                }
+                let Ok(h) = Hull::<K, D>::from_triangulation(dt.as_triangulation()) else { continue };
+                let before = snap_of(&dt).semantic(false);
+                let op1 = Op::Remove { v };
+                let o1 = model::apply(&mut dt, &op1, alphabet);
+                let op2 = Op::Insert { p, uid: 800 + p as u32, stats: false };
+                let o2 = model::apply(&mut dt, &op2, alphabet);
+                if matches!(o1, Outcome::Panic { .. }) || matches!(o2, Outcome::Panic { .. }) {
+                    continue;
+                }
+                cn.ops.fetch_add(2, Ordering::Relaxed);
+                if snap_of(&dt).semantic(false) != before {
+                    cn.stale_required.fetch_add(1, Ordering::Relaxed);
+                    let rj = |api: &str| json!({"D": D, "kernel": kname, "family": family, "points": pts.iter().map(|q| q.to_vec()).collect::<Vec<_>>(), "dummy_cycles_before_hull": bumps, "ops": [format!("{op1:?}"), format!("{op2:?}")], "api": api});
+                    require_stale(rep, &dt, &h, "two changes", &op2, &o2, &rj);
+                }
+            }
+        }
+    }
+}
+
 fn run_set<K: Kernel<D, Scalar = f64>, const D: usize>(rep: &Report, cn: &Cn, kname: &str, family: &str, pts: &[[f64; D]], alphabet: &[[f64; D]], cap: usize, full_ops: bool) {
+    if pts.len() <= D + 2 {
+        two_changes::<K, D>(rep, cn, kname, family, pts, alphabet);
+    }
     let corpus = state_corpus::<K, D>(pts, cap);
     for (prov, dt) in &corpus {
         check_state(rep, cn, kname, family, prov, dt, alphabet, full_ops);
